@@ -17,4 +17,27 @@ def cmdCompactModel (path : String) (os limit : Nat) : IO Unit := do
     let dump := dumpSVal r.dst
     IO.println s!"dump:{hashStr dump} commits={r.commits} err={r.err.isSome}"
 
+def pathStr (p : List Bytes) : String :=
+  if p.isEmpty then "-" else "/".intercalate (p.map hexOf)
+
+def dstCallLine : DstCall → String
+  | .put p k v => s!"put {pathStr p} {hexOf k} {if v.isEmpty then "-" else hexOf v}"
+  | .createBucket p k => s!"mkb {pathStr p} {hexOf k}"
+  | .setSequence p n => s!"seq {pathStr p} {n}"
+
+/-- `compactcalls <src file> <os page size> <limit>`: the destination calls of `Compact`,
+    grouped by destination transaction (`Compact.compactTxs`), one call per line, every
+    transaction introduced by a line `tx`. -/
+def cmdCompactCalls (path : String) (os limit : Nat) : IO Unit := do
+  let ba ← IO.FS.readBinFile path
+  match decodeFile (fileOfBytes ba) os with
+  | .error e => IO.println ("err " ++ e)
+  | .ok d =>
+    let ents := match d.content with | .bkt _ e => e | _ => []
+    for tx in compactTxs limit ents do
+      IO.println "tx"
+      for c in tx do
+        IO.println (dstCallLine c)
+    IO.println "end"
+
 end Bolt.Driver
